@@ -60,4 +60,17 @@ mod verif_witness_decode {
         let got = drain(vec![w[..10].to_vec(), w[10..].to_vec()], None).await;
         assert_eq!(got, vec![Ok(vec![1]), Ok(vec![2])]);
     }
+    #[tokio::test]
+    async fn an_empty_data_frame_in_the_body_changes_nothing() {
+        // the transport may deliver zero-length DATA frames anywhere (`body` above filters them, so build the body by hand)
+        let mut w = frame(0, &[1, 2]); w.extend(frame(0, &[3]));
+        for cut in 0..=w.len() {
+            let chunks = vec![w[..cut].to_vec(), vec![], w[cut..].to_vec()];
+            let b = StreamBody::new(tokio_stream::iter(chunks.into_iter().map(|c| Ok::<_, Status>(http_body::Frame::data(Bytes::from(c))))));
+            let mut s = Streaming::<Vec<u8>>::new_request(Raw, b, None, None);
+            let mut out = vec![];
+            for _ in 0..8 { match s.next().await { Some(r) => out.push(r.map_err(|e| e.code())), None => break } }
+            assert_eq!(out, vec![Ok(vec![1, 2]), Ok(vec![3])], "empty DATA frame at byte {}", cut);
+        }
+    }
 }
